@@ -29,6 +29,15 @@ pub ghost enum Call {
     Init(u32, bool),
     /// execute_condition(script) with its answer (None = evaluation error)
     Cond(Data, Option<bool>),
+    /// send(processor type, event name, event invoke id) through an event I/O processor
+    Send(Seq<char>, Seq<char>, Option<Seq<char>>),
+}
+
+pub open spec fn opt_str(o: Option<String>) -> Option<Seq<char>> {
+    match o {
+        None => None,
+        Some(s) => Some(s@),
+    }
 }
 
 pub trait Datamodel {
@@ -74,6 +83,19 @@ pub trait Datamodel {
             final(self).gview().child_sessions == old(self).gview().child_sessions,
             final(self).gview().internalQueue.data@.len() == old(self).gview().internalQueue.data@.len() + 1,
             final(self).gview().internalQueue.data@.last().name@ == "error.execution"@;
+
+    /// hands an event to an event I/O processor (oracle): may raise error events, touches nothing else
+    fn send(&mut self, ioc_processor: &str, target: &Data, event: Event) -> (r: bool)
+        ensures
+            final(self).log() == old(self).log(),
+            frame_core(old(self).gview(), final(self).gview()),
+            final(self).gview().child_sessions == old(self).gview().child_sessions;
+
+    /// publishes the current event as `_event` (oracle): touches the data store only
+    fn set_event(&mut self, event: &Event)
+        ensures
+            final(self).log() == old(self).log(),
+            final(self).gview() == old(self).gview();
 
     /// read-only view of the session's global data (models `global_s().lock().unwrap()`)
     fn gs(&self) -> (r: &GlobalData)
@@ -146,3 +168,26 @@ pub fn verif_str_starts_with(s: &str, p: &String) -> (r: bool)
 pub assume_specification [std::string::String::len] (s: &std::string::String) -> (r: usize)
     ensures
         r == vstd::utf8::encode_utf8(s@).len();
+
+impl Data {
+    /// stand-in for the enum constructor `Data::String(..)` (Data is opaque here)
+    #[allow(non_snake_case)]
+    #[verifier::external_body]
+    pub fn String(s: String) -> (r: Data) {
+        unimplemented!()
+    }
+}
+
+/// R19: `s.starts_with(<&str>)` routed through a monomorphic wrapper (byte-prefix test)
+#[verifier::external_body]
+pub fn verif_starts_with_str(s: &str, p: &str) -> (r: bool)
+    ensures
+        r == p.spec_bytes().is_prefix_of(s.spec_bytes()),
+{
+    s.starts_with(p)
+}
+
+/// `String == str` compares the character sequences
+pub assume_specification [<String as PartialEq<str>>::eq] (a: &String, b: &str) -> (r: bool)
+    ensures
+        r == (a@ == b@);
